@@ -194,6 +194,25 @@ def handleSD (spec req : String) : String :=
     "ok shown=" ++ ",".intercalate (sortStrings (wanted.map fun p => p ++ "=" ++ ((claims.find? (·.1 == p)).map (·.2)).getD ""))
   else "nocreds"
 
+/-- `MatchSubmissionRequirement` (`makeRequirementsForMatch` + `matchRequirement`): one node per requirement in
+    pre-order; a `from` node lists its descriptors (definition order) each with ALL credentials that satisfy it, a
+    `from_nested` node lists nothing itself; without submission requirements there is one node with every descriptor -/
+partial def msrNodes (cse : Case) : SR → List String
+  | .from_ _ g _ _ _ =>
+    [",".intercalate ((cse.descs.filter fun d => d.groups.contains g).map fun d =>
+      d.id ++ "=" ++ "+".intercalate (sortStrings ((cse.creds.filter (credMatches d)).map (·.id))))]
+  | .nested _ ks _ _ _ => "" :: ks.flatMap (msrNodes cse)
+
+def msrExpected (cse : Case) : String :=
+  match cse.reqs with
+  | none => ",".intercalate (cse.descs.map fun d =>
+      d.id ++ "=" ++ "+".intercalate (sortStrings ((cse.creds.filter (credMatches d)).map (·.id))))
+  | some rs => ";".intercalate (rs.flatMap (msrNodes cse))
+
+/-- version 2 definitions (an optional field, a format requirement) are not put to `MatchSubmissionRequirement` by the harness -/
+def isV2 (cse : Case) : Bool := cse.descs.any fun d =>
+  d.kind == 'C' || d.kind == 'P' || d.kind == 'M' || d.schema == "f1" || d.schema == "f2" || d.schema == "f3"
+
 def handle (input : String) : String :=
   if input.startsWith "sd|" then
     (match input.splitOn "|" with | [_, spec, req] => handleSD spec req | _ => "bad-input") else
@@ -209,7 +228,8 @@ def handle (input : String) : String :=
       | none => "nocreds|-"
       | some sol =>
         let v := if verifier req sol then "ok " ++ ",".intercalate (sortStrings sol) else "reject"
-        "vp " ++ ",".intercalate (pairsOf cse sol) ++ "|" ++ v
+        let m := if verifier req sol then "|msr " ++ (if isV2 cse then "-" else msrExpected cse) else ""
+        "vp " ++ ",".intercalate (pairsOf cse sol) ++ "|" ++ v ++ m
 
 /-- all sublists (the oracle's brute force over descriptor subsets; n ≤ 6) -/
 def sublists : List String → List (List String)
@@ -236,8 +256,13 @@ def oracle (input implOut : String) : String :=
     | none => if implOut == "err no descriptors for from|-" then implOut else "EXPECTED-DEFINITION-ERROR"
     | some req =>
       match implOut.splitOn "|" with
-      | [h, v] =>
-        if h.startsWith "walletquery-differs" then "WALLET-QUERY-ANSWER-DIFFERS-FROM-CREATEVP " ++ h
+      | h :: v :: more =>
+        let msrBad := match more with
+          | [m] => m != "msr " ++ (if isV2 cse then "-" else msrExpected cse)
+          | [] => false
+          | _ => true
+        if msrBad then "MATCHED-SUBMISSION-REQUIREMENT-DIFFERS: expected msr " ++ msrExpected cse
+        else if h.startsWith "walletquery-differs" then "WALLET-QUERY-ANSWER-DIFFERS-FROM-CREATEVP " ++ h
         else if h == "nocreds" then
           -- only descriptors the requirement mentions can be submitted
           let matchable := ((cse.descs.filter fun d => cse.creds.any (credMatches d)).map (·.id)).filter (R.all req).contains
